@@ -35,6 +35,8 @@ Oracle after every event (invariant): for every (base, off, width) of the probe 
   * symbols.read(@w[base+off]) has size w and, evaluated by mc.refsem under 3 fixed valuations of all identifiers and a
     fixed original memory, equals the model's byte-wise little-endian concatenation;
   * `@w[base+off] in symbols` is true iff every (wrapped) byte of the region is in the model; contains_partial iff some is;
+  * the state exported by get_state() and imported into a fresh engine, and the object returned by copy(), answer every
+    stored byte, its two neighbours and two 64-bit reads like the model - in EVERY reached state, not only behind rt / cp events;
 and in the export event: the exported memory items are pairwise disjoint and cover exactly the model's bytes.
 """
 import hashlib
@@ -304,7 +306,7 @@ def make(seed):
 
 # write menu on the primary base: (offset, value key); simplest first
 WRITES = [
-    (0, ("X", 8)), (-1, ("X", 16)), (0, ("X", 32)), (-2, ("X", 32)), (1, ("X", 16)), (-1, ("X", 64)),
+    (0, ("X", 8)), (-1, ("X", 16)), (0, ("X", 32)), (-2, ("X", 32)), (2, ("X", 32)), (1, ("X", 16)), (-1, ("X", 64)),
     (-1, ("C", 16)), (0, ("C", 32)),
     (0, ("O", 8)), (-1, ("O", 16)),
     (-1, ("M", 16, 1)), (0, ("M", 16, -1)),
@@ -315,11 +317,11 @@ WRITES = [
 WRITES_MORE = [
     (-2, ("C", 8)), (-2, ("O", 32)),
     (1, ("X", 8)), (-2, ("X", 64)), (-2, ("Y", 16)), (1, ("C", 16)), (-2, ("M", 32, 1)), (0, ("K", 16)), (-1, ("S", 16, 0)),
-    (0, ("O", 64)), (2, ("X", 32)), (0, ("R", 16, 0)), (-1, ("R", 8, 2)),
+    (0, ("O", 64)), (1, ("X", 32)), (0, ("R", 16, 0)), (-1, ("R", 8, 2)),
     (-1, ("U", 32, 1)), (0, ("V", 8, 4)), (-1, ("V", 8, 4)), (-2, ("U", 8, 7)),
 ]
-DELS = [(-1, 16), (0, 8), (-2, 32)]
-DELS_MORE = [(1, 8), (-1, 8), (0, 16)]
+DELS = [(-1, 16), (0, 8), (-2, 32), (2, 16)]
+DELS_MORE = [(1, 8), (-1, 8), (0, 16), (1, 16), (-2, 16), (3, 8), (2, 8)]
 DELPS = [(-2, 32), (0, 16)]
 DELPS_MORE = [(-1, 64)]
 
@@ -592,6 +594,48 @@ def _probe(st):
                 if sig not in seen_sigs:
                     seen_sigs.add(sig)
                     probs.append((sig, "%s(%s) = %s but %d of its %d bytes are stored: %s" % (name, target, got_b, npresent, len(reg), _fmt_model(st))))
+    # ---- export / import and copy(), after EVERY history: the state exported by get_state() and imported into a fresh
+    # engine, and the object returned by copy(), must answer every byte (and the widest read across the wrap) like the model
+    from miasm.ir.symbexec import SymbolicExecutionEngine
+    clones = []
+    try:
+        fresh = SymbolicExecutionEngine(_Lifter(asz))
+        fresh.set_state(st.engine.get_state())
+        clones.append(("export-import", fresh.symbols))
+    except Exception as exc:
+        probs.append(("export-import:raise:%s" % type(exc).__name__, "get_state/set_state raised %r, stored bytes %s" % (exc, _fmt_model(st))))
+    try:
+        clones.append(("copy", sym.copy()))
+    except Exception as exc:
+        probs.append(("copy:raise:%s" % type(exc).__name__, "copy() raised %r, stored bytes %s" % (exc, _fmt_model(st))))
+    # every stored byte and its two neighbours (that is where a wrong region boundary shows), plus two 64-bit reads
+    near = set()
+    for (base, o) in st.model:
+        so = o if o <= (st.mask >> 1) else o - st.mask - 1
+        for d in (-1, 0, 1):
+            near.add((base, so + d))
+    byte_probes = [(base, off, 8) for base, off in sorted(near)]
+    byte_probes += [(st.primary, -4, 64), (st.primary, 0, 64)]
+    for name, clone in clones:
+        for base, off, w in byte_probes:
+            reg = _region(st, base, off, w)
+            target = m.ExprMem(ptr(asz, base, off), w)
+            try:
+                got = clone.read(target)
+                have = eval_expr(asz, got)
+            except Exception as exc:
+                probs.append(("%s:read-raise:%s" % (name, type(exc).__name__), "%s: read %s raised %r, stored bytes %s" % (name, target, exc, _fmt_model(st))))
+                break
+            descs = [st.model.get(k) or ("o", k[0], k[1]) for k in reg]
+            want = tuple(sum(desc_val(asz, d, vi) << (8 * i) for i, d in enumerate(descs)) for vi in range(NVAL))
+            if have != want:
+                stored = "stored" if reg[0] in st.model else "untouched"
+                vi = [i for i in range(NVAL) if want[i] != have[i]][0]
+                probs.append(("%s:read-differs:w%d:%s-byte" % (name, w, stored),
+                              "after %s, read %s = %s evaluates to %#x, the byte store holds %#x (valuation %d); the live store answers %s; stored bytes %s" % (
+                                  "get_state() -> set_state() into a fresh engine" if name == "export-import" else "copy()",
+                                  target, got, have[vi], want[vi], vi, sym.read(target), _fmt_model(st))))
+                break
     return probs
 
 
